@@ -5,6 +5,19 @@ import itertools, random, re
 from bounded.util import chunked, pmap
 
 # ---------------------------------------------------------------- reference line recogniser (independent of the repo's regexes)
+def ref_directive(d):
+    """the text after the '#' of a test or plan line -> (directive or None, explanation): a directive is the WORD todo, or a
+    word starting with skip (skipped, skipping ...), in any letter case; `todos`, `todo_later`, `todo2` are ordinary words"""
+    dd = d.lstrip(' \t\r\n\f\v')
+    up = dd.upper()
+    if up.startswith('SKIP'):
+        w = dd.split(None, 1)
+        return w[0].upper(), (w[1].strip() if len(w) > 1 else None)
+    if up.startswith('TODO') and (len(dd) == 4 or not (dd[4].isalnum() or dd[4] == '_')):
+        return 'TODO', dd[4:].strip() or None
+    return None, None
+
+
 def ref_classify(line):
     """-> (kind, fields) for a right-stripped, non-empty, non-comment line"""
     s = line
@@ -22,22 +35,15 @@ def ref_classify(line):
             name, hsh, d = r2.partition('#')
             directive = expl = None
             if hsh:
-                dd = d.lstrip(' \t')
-                w = dd.split(None, 1)
-                if w and (w[0].upper().startswith('SKIP') or w[0].upper() == 'TODO'):
-                    directive = w[0].upper()
-                    expl = w[1].strip() if len(w) > 1 else None
-                else:
-                    # a '#' that does not introduce a directive: the description ends at '#'
-                    directive = None
+                directive, expl = ref_directive(d)
             return ('test', ok, num, name.strip(), directive, expl)
     m = re.match(r'1\.\.([0-9]+)', s)
     if m:
         rest = s[m.end():]
         directive = None
-        mm = re.match(r'\s*#\s*(\S+)', rest)
-        if mm and (mm.group(1).upper().startswith('SKIP') or mm.group(1).upper() == 'TODO'):
-            directive = mm.group(1).upper()
+        r3 = rest.lstrip(' \t\r\n\f\v')
+        if r3.startswith('#'):
+            directive = ref_directive(r3[1:])[0]
         return ('plan', int(m.group(1)), directive)
     if s.startswith('Bail out!'):
         return ('bailout',)
@@ -233,8 +239,44 @@ def verdict_real(lines, rc):
     return run.res.is_bad()
 
 
+DWORDS = ['TODO', 'todo', 'ToDo', 'todos', 'TODOlist', 'todo_later', 'ToDo2', 'TODO:', 'todo-x', 'todo.', 'tod', 'T0DO', 'to do', 'xtodo',
+          'SKIP', 'skip', 'SKIPPED', 'skipping', 'skip:', 'SKIP_ME', 'skiq', 'ski', 'xskip', 'FOO']
+DHEADS = ['ok 1 a #', 'not ok 1 a #', 'ok #', 'not ok #', 'ok 1 #', '1..1 #', '1..0 #']
+
+
+def directive_lines():
+    out = []
+    for h in DHEADS:
+        for sp in ('', ' ', '  '):
+            for w in DWORDS:
+                for tail in ('', ' why', ' 3 left'):
+                    line = h + sp + w + tail
+                    out.append((line, 'ok 1') if h.startswith('1..1') else (line,))
+    return out
+
+
+def _dir_chunk(chunk):
+    fails, nt = [], 0
+    for lines in chunk:
+        nt += 1
+        try:
+            got = real_events(list(lines))
+        except Exception as ex:
+            fails.append({'case': {'lines': list(lines)}, 'stage': 'directive', 'detail': f'{type(ex).__name__}: {ex}'})
+            continue
+        exp = ref_events(list(lines))
+        if got != exp:
+            fails.append({'case': {'lines': list(lines)}, 'stage': 'directive', 'detail': f'events {got!r}, TAP reference {exp!r}'})
+    return len(chunk), nt, fails
+
+
 def run(REG, tier, seed, jobs):
     parts = []
+    dl = directive_lines()
+    ev, nt, fails = pmap(_dir_chunk, chunked(iter(dl), 64), jobs)
+    parts.append({'name': 'C18/bounded/directive-words', 'function': 'TAPParser.parse (directive recognition on test and plan lines)',
+                  'bound': f'{len(dl)} single lines: {len(DHEADS)} test / plan heads x 0-2 blanks x {len(DWORDS)} words after the # (todo / skip in several letter cases, with suffixes that do and do not end the word, near misses) x 3 tails',
+                  'evaluations': ev, 'distinct_nontrivial': nt, 'rule': 'every line', 'exhaustive': True, 'failures': fails})
     rnd = random.Random(seed)
     n = 3
     streams = itertools.product(ALPHA, repeat=n)
@@ -273,6 +315,7 @@ def _junk_chunk(chunk):
 
 
 CHECKS = {
+    'C18/bounded/directive-words': (_dir_chunk, lambda c: tuple(c['lines'])),
     'C18/bounded/TestRunTAP-verdict': (_verdict_chunk, lambda c: (tuple(c['lines']), c['returncode'])),
     'C18/bounded/streams-vs-TAP-reference': (_stream_chunk, lambda c: tuple(c['lines'])),
     'C18/bounded/arbitrary-text-never-raises': (_junk_chunk, lambda c: tuple(c['lines'])),
